@@ -8,6 +8,8 @@ _UNIT_MODULES = [
     "units.u_bitvec.unit",
     "units.u_output.unit",
     "units.u_charcount.unit",
+    "units.u_symbols.unit",
+    "units.u_rulemap.unit",
 ]
 
 UNITS = {}
@@ -22,7 +24,7 @@ REPORT_TB = ["ASSUMED contracts of diagn::Report methods (units/contracts_report
 RESOLVER_TB = ["ASSUMED contracts of unverified customasm code used by U-resolver/U-iterate: asm::resolver::eval / eval_certain ('Err is loud, Ok is clean'), resolve_constant / resolve_instruction / resolve_data_element (the per-item pass contract), ResolveIterator::new/next (flags copied; the yielded node refers to defined items), Value::expect_error_or_bigint / expect_bool, DefList::get_mut (frame), derived PartialEq of expr::Value",
                "ghost event `ItemDefs::confirmed()` is produced only by resolve_once's stub clause [confirms] (a name for 'a no-guess pass answered Resolved'); termination of resolve_once's loop is not proved"]
 
-ALL_UNITS = ["U-overlap", "U-bigint", "U-constrain", "U-resolver", "U-iterate", "U-bitvec", "U-output", "U-charcount"]
+ALL_UNITS = ["U-overlap", "U-bigint", "U-constrain", "U-resolver", "U-iterate", "U-bitvec", "U-output", "U-charcount", "U-symbols", "U-rulemap"]
 
 PROPERTIES = {
     "C01": {
@@ -60,6 +62,18 @@ PROPERTIES = {
         "claim": "For every character sequence and every byte index: get_line_column_at_index returns the 0-based line (newlines before) and character column (characters since the last newline) of the character that starts at that byte index, whatever the byte lengths of the characters before it; get_index_range_of_line returns the byte offsets of the first and one-past-last character of the requested line (both character boundaries, begin <= end); get_line_count = 1 + number of newlines. Span::join is the hull of two spans of one file with dummy spans neutral; before/after/length/location as stated.",
         "not_reached": "that spans are created on character boundaries (syntax::Walker), that CharCounter::new's `chars` is the character sequence of `src` and str::get succeeds on boundaries (std), that the first error is on the faulty line (whole pipeline), included files, the message tree printer",
         "trusted_base": ["vstd's specification of char::len_utf8 (1..=4 bytes)", "CharCounter::wf: 4 * chars.len() fits in usize (allocation limit of Vec<char>) is a precondition not checked at the call sites"],
+    },
+    "C08": {
+        "units": ["U-rulemap"],
+        "claim": "Matcher prefix index, query side only: RuledefMap::query_prefixed(q) returns, for every i up to the number of leading non-NUL characters of q (at most 4), exactly the bucket stored under q truncated to i characters, and nothing for longer prefixes - so a rule filed under a key that is a truncation of the instruction's prefix is always among the candidates, and no other bucket is consulted.",
+        "not_reached": "RuledefMap::insert/build (HashMap entry API, iterator adapters) and parse_prefix (tokenizer): that a rule which matches an instruction is filed under a truncation of the instruction's prefix; the whole static-value optimisation (expr::inspect, resolved flags) - a relation between two executions of the evaluator",
+        "trusted_base": ["ASSUMED: obeys_key_model::<[char; 4]>() (structural Hash/Eq of char arrays)", "vstd's HashMap::get specification"],
+    },
+    "C15": {
+        "units": ["U-symbols"],
+        "claim": "Symbol lookup, for every declaration table, context and path: try_get_by_name(ctx, k, path) is None when k exceeds the depth of the context, and otherwise descends from the declaration reached by the first k components of the context (the enclosing label k-1 levels deep; the global scope for k = 0) along the dotted path; traverse/get_parent implement that descent component by component. The result depends only on the table, not on declaration order.",
+        "not_reached": "SymbolManager::declare (duplicate / skipped-level errors, HashMap insertion, context construction: iterator chains and String building), the AST walk that carries symbol_ctx, constants' values, 'moving a constant changes nothing'",
+        "trusted_base": ["ASSUMED contract of the R8 wrapper verif_lookup: HashMap<String, ItemRef>::get with a borrowed key is an (uninterpreted) function of the map and the key text"],
     },
     "C09": {
         "units": ["U-iterate", "U-resolver"],
